@@ -393,6 +393,11 @@ fn check(ctx: &mut Ctx, p: &Program, idx: u64, r: &mut Rng) {
     let obs0 = observe(&src0, &[], &Opts::run(steps));
     let out0 = outcome_of(&obs0);
     ctx.count(&format!("original:{}", match &out0 { Outcome::Rejected(_) => "rejected", Outcome::Running => "running", _ => "accepted" }));
+    if matches!(out0, Outcome::Rejected(_)) {
+        // the property is about accepted programs (a rewrite may well repair a rejected one:
+        // renaming removes a shadowing, for instance)
+        return;
+    }
     for seq in 0..10u64 {
         let len = 1 + r.usize(5);
         let mut h = p.h.clone();
